@@ -40,6 +40,7 @@ BASE_CLASSES = ["random-bytes", "cut-header", "cut-payload", "absurd-length", "c
                 "wrong-shape", "rst-mid-request", "request-no-wait", "connect-leave", "valid-then-garbage", "call-then-leave"]
 AUTH_CLASSES = ["auth-wrong-token", "auth-short-token", "auth-cut-token"]
 CLIENT_TIMEOUT = 30
+CHURN_TIMEOUT = 8      # short sessions: an unanswered request is then judged on the server's state, not on the clock
 LOST = (EOFError, ConnectionError, OSError)
 
 
@@ -539,13 +540,25 @@ def churn_round(sc, sp, cfg, nthreads, per_thread, ridx):
     from rpyc.core import consts
     server = cfg[0]
     results = []
+    abandoned = []
 
     def worker(k):
         for i in range(per_thread):
             conn = None
             t = "churn/%d/%d" % (k, i)
             try:
-                conn = sp.good(sync_timeout=CLIENT_TIMEOUT)
+                if (k + i) % 4 == 3:
+                    # an impatient client: sends a request that takes a moment and leaves abruptly while it is being executed
+                    # (always disconnects, so this is C16's "disconnect at any point"); nothing to check on this session itself
+                    c2 = sp.good(sync_timeout=CLIENT_TIMEOUT)
+                    r2 = c2.root
+                    c2.async_request(consts.HANDLE_CALLATTR, r2, "sleep", (0.03,), ())
+                    sock = c2._channel.stream.sock
+                    del r2
+                    rn.rst_close(sock)
+                    abandoned.append(1)
+                    continue
+                conn = sp.good(sync_timeout=CHURN_TIMEOUT)
                 root = conn.root
                 conn.sync_request(consts.HANDLE_CALLATTR, root, "set", ("k", t), ())
                 got = conn.sync_request(consts.HANDLE_CALLATTR, root, "get", ("k",), ())
@@ -580,6 +593,24 @@ def churn_round(sc, sp, cfg, nthreads, per_thread, ridx):
         return False
     health = server_health(sp, st)
     wit = dict(server=server, auth=cfg[1], round="churn", threads=nthreads, sessions=nthreads * per_thread)
+    sc.count("churn_sessions_abandoned_mid_request", len(abandoned))
+    if any(kind == "timeout" for kind, _ in results) and not health:
+        # state at quiescence: all clients have gone, so nothing may be pending; a tracked connection whose request bytes
+        # still sit unread while the pool is idle is a request the server will never serve
+        import time as _t
+        samples = []
+        for _ in range(3):
+            _t.sleep(0.7)
+            try:
+                s2 = sp.state()
+            except rn.ChildError:
+                break
+            samples.append((s2.get("pending_unread") or {}, s2.get("active_queue")))
+        stuck = set(samples[0][0]) if samples else set()
+        for pend, q in samples[1:]:
+            stuck &= set(pend)
+        if len(samples) == 3 and stuck and all(q == 0 for _, q in samples):
+            health = ["a tracked connection has had unread request bytes for 2 s while the pool's queue is empty: it is no longer polled"]
     for kind, what in results:
         sc.count("churn_sessions")
         if kind == "ok":
